@@ -16,7 +16,8 @@ import copy
 import itertools
 import pickle
 
-from ..copy_machines import (CopyListener, CopyListenerAsync, CopyListenerEq, CopyModel,
+from ..copy_machines import (CopyListener, CopyListenerAsync, CopyListenerEq,
+                             CopyListenerFalsy, CopyModel,
                              CopyModelAsync, built_for)
 from ..drive import Pair
 from ..env import CUR, Env
@@ -38,6 +39,8 @@ CONFIGS = [
     ("listener-only-action", "lis", Cfg("sync", True, False, "direct"), "state", None, False, False),
     ("listener-only-action-async", "lis", Cfg("async", True, False, "facade"), "state", None, False, True),
     ("two-equal-listeners", "sync", Cfg("sync", True, False, "direct"), "state", None, False, "eq2"),
+    ("falsy-listener", "lis", Cfg("sync", True, False, "direct"), "state", None, False, "falsy"),
+    ("falsy-listener-tolerant", "sync", Cfg("sync", True, True, "direct"), "status", 1, False, "falsy"),
     # the events are bound onto the model (bind_events_to) and fired through the model: the
     # clone's model must drive the clone
     ("events-bound-to-model", "sync", Cfg("sync", True, False, "direct"), "state", None, False, False),
@@ -72,6 +75,8 @@ def make_pair(ci):
             ("L2", n, f) for (p_, n, f) in m.provided if p_ == "L1"))
         built = Built(m, built.cls, built.tr_objs, {}, None, {})
         listeners = [l1, l2]
+    elif lasync == "falsy":
+        listeners = [CopyListenerFalsy()]
     else:
         listeners = [(CopyListenerAsync if lasync else CopyListener)()]
     sv = None if svi is None else VALUES[svi]
